@@ -96,6 +96,21 @@ def mass_params():
     })
 
 
+# strategies are built once (re-creating them inside a composite costs ~10 ms per case in validation alone)
+_S_RB, _S_RATIO, _S_SPACING = _edge(*RB), _edge(*RATIO), _edge(*SPACING)
+_S_THICK, _S_LMIN, _S_STROKE = _edge(*THICK_FRAC), _edge(*LMIN_RADII), _edge(*STROKE)
+_S_HAND = st.sampled_from([1, -1])
+_S_SHAPE = st.sampled_from(["any", "any", "any", "any", "flat", "tall"])
+_S_FLAT_RATIO, _S_FLAT_LMIN = _edge(0.85, 1.0), _edge(0.8, 0.95)
+_S_FLAT_STROKE, _S_FLAT_THICK = _edge(1.5, 1.65), _edge(0.0, 0.02)
+_S_TALL_LMIN, _S_TALL_STROKE = _edge(1.3, 1.5), _edge(1.8, 2.0)
+_S_ALT = st.one_of(st.just(0.0), st.just(0.0), G.floats(-180.0, 180.0), st.sampled_from([30.0, -60.0, 90.0]))
+_S_BASE = base_poses()
+_S_SPIN = st.one_of(st.none(), st.none(), spin_angles())
+_S_MAXDEV = st.sampled_from([DEFAULT_MAX_DEV_DEG, 55.0, 40.0])
+_S_MASS = mass_params()
+
+
 @st.composite
 def sp_specs(draw, routes=ROUTES, spin=True, base=True, masses=False):
     """Serialisable geometry dict inside C09's quantifier ranges.
@@ -106,29 +121,39 @@ def sp_specs(draw, routes=ROUTES, spin=True, base=True, masses=False):
     masses : attach mass / centre-of-gravity parameters (C11); otherwise all masses are zero
     """
     route = draw(st.sampled_from(list(routes)))
-    rb = draw(_edge(*RB))
-    ratio = draw(_edge(*RATIO))
+    rb = draw(_S_RB)
+    sb = draw(_S_SPACING)
+    stp = draw(_S_SPACING)
+    # shape classes: the whole box, plus the two ends of "how steep do the legs stand" -- flat platforms (equal
+    # plates, short legs, short stroke: legs almost horizontal, the neutral-height square root near its domain
+    # limit, FK worst conditioned) and tall slender ones
+    shape = draw(_S_SHAPE)
+    if shape == "flat":
+        ratio, kmin, stroke, thick = draw(_S_FLAT_RATIO), draw(_S_FLAT_LMIN), draw(_S_FLAT_STROKE), draw(_S_FLAT_THICK)
+        tb, tt = thick * rb, thick * rb * ratio
+    elif shape == "tall":
+        ratio, kmin, stroke = draw(_S_RATIO), draw(_S_TALL_LMIN), draw(_S_TALL_STROKE)
+        tb, tt = draw(_S_THICK) * rb, draw(_S_THICK) * rb * ratio
+    else:
+        ratio, kmin, stroke = draw(_S_RATIO), draw(_S_LMIN), draw(_S_STROKE)
+        tb, tt = draw(_S_THICK) * rb, draw(_S_THICK) * rb * ratio
     rt = rb * ratio
-    sb = draw(_edge(*SPACING))
-    stp = draw(_edge(*SPACING))
-    tb = draw(_edge(*THICK_FRAC)) * rb
-    tt = draw(_edge(*THICK_FRAC)) * rt
-    lmin = draw(_edge(*LMIN_RADII)) * rb
-    lmax = draw(_edge(*STROKE)) * lmin
-    rot = draw(st.sampled_from([1, -1]))
+    lmin = kmin * rb
+    lmax = stroke * lmin
+    rot = draw(_S_HAND)
     alt_rot = 0.0
     if route == "makeSP":
         # makeSP has one joint spacing and one plate thickness for both plates, and an extra angular offset (deg)
         stp = sb
         tb = tt = min(tb, tt)
-        alt_rot = draw(st.one_of(st.just(0.0), st.just(0.0), G.floats(-180.0, 180.0), st.sampled_from([30.0, -60.0, 90.0])))
+        alt_rot = draw(_S_ALT)
     spec = {
         "route": route, "rb": rb, "rt": rt, "sb": sb, "st": stp, "tb": tb, "tt": tt,
         "lmin": lmin, "lmax": lmax, "rot": rot, "alt_rot": alt_rot,
-        "base": draw(base_poses()) if base else np.zeros(6),
-        "spin": draw(st.one_of(st.none(), st.none(), spin_angles())) if spin else None,
-        "max_dev": draw(st.sampled_from([DEFAULT_MAX_DEV_DEG, 55.0, 40.0])),
-        "masses": draw(mass_params()) if masses else None,
+        "base": draw(_S_BASE) if base else np.zeros(6),
+        "spin": draw(_S_SPIN) if spin else None,
+        "max_dev": draw(_S_MAXDEV),
+        "masses": draw(_S_MASS) if masses else None,
     }
     return spec
 
@@ -139,17 +164,21 @@ def _box_coord(lim):
                      G.signed_log_uniform(1e-9, 1e-3).map(lambda v: max(-lim, min(lim, v))))
 
 
+_S_KIND = st.sampled_from(["generic", "generic", "generic", "translate", "rotate", "neutral", "corner"])
+_S_SIGNS = st.lists(st.sampled_from([-1.0, 1.0]), min_size=6, max_size=6)
+_S_LAT, _S_H, _S_ROT = _box_coord(BOX_LAT), _box_coord(BOX_H), _box_coord(BOX_ROT)
+
+
 @st.composite
 def _rel_u(draw):
     """Normalised box coordinates u = [x/h, y/h, z/h - 1, wx, wy, wz]."""
-    kind = draw(st.sampled_from(["generic", "generic", "generic", "translate", "rotate", "neutral", "corner"]))
+    kind = draw(_S_KIND)
     if kind == "neutral":
         return np.zeros(6)
     if kind == "corner":
-        s = [draw(st.sampled_from([-1.0, 1.0])) for _ in range(6)]
+        s = draw(_S_SIGNS)
         return np.array([s[0] * BOX_LAT, s[1] * BOX_LAT, s[2] * BOX_H, s[3] * BOX_ROT, s[4] * BOX_ROT, s[5] * BOX_ROT])
-    u = np.array([draw(_box_coord(BOX_LAT)), draw(_box_coord(BOX_LAT)), draw(_box_coord(BOX_H)),
-                  draw(_box_coord(BOX_ROT)), draw(_box_coord(BOX_ROT)), draw(_box_coord(BOX_ROT))])
+    u = np.array([draw(_S_LAT), draw(_S_LAT), draw(_S_H), draw(_S_ROT), draw(_S_ROT), draw(_S_ROT)])
     if kind == "translate":
         u[3:] = 0.0
     elif kind == "rotate":
@@ -157,12 +186,15 @@ def _rel_u(draw):
     return u
 
 
+_S_REL_U = _rel_u()
+
+
 def rel_poses(model=None):
     """Relative plate poses inside the stated box (lateral <= 20 % of the neutral height h, height within 15 % of h,
     each rotation-vector component <= 0.3 rad).  With a model: 4x4 matrices.  Without: normalised u-vectors."""
     if model is None:
-        return _rel_u()
-    return _rel_u().map(lambda u: rel_T(model, u))
+        return _S_REL_U
+    return _S_REL_U.map(lambda u: rel_T(model, u))
 
 
 def rel_T(model, u):
